@@ -72,6 +72,9 @@ func (mbp *multipartBodyProcessor) ProcessRequest(reader io.Reader, v plugintype
 					return err
 				}
 				defer temp.Close()
+				// The file is registered before it is filled: if copying fails it still has to be
+				// removed when the transaction is closed.
+				filesTmpNamesCol.Add("", temp.Name())
 				sz, err := io.Copy(temp, p)
 				if ferr := verif.Fault("mp.copy"); ferr != nil {
 					err = ferr
@@ -84,7 +87,6 @@ func (mbp *multipartBodyProcessor) ProcessRequest(reader io.Reader, v plugintype
 					seenUnexpectedEOF = true
 				}
 				size = sz
-				filesTmpNamesCol.Add("", temp.Name())
 			} else {
 				sz, err := io.Copy(io.Discard, p)
 				if err != nil {
